@@ -154,7 +154,7 @@ func (w *World) RunScript(lines []string) (err error) {
 				continue // no entry to use as a bound
 			}
 		}
-		if toks[0] == "forge" || toks[0] == "inject" || ((toks[0] == "hold" || toks[0] == "waitget" || toks[0] == "syncasync" || toks[0] == "release") && strings.Contains(line, "@")) {
+		if toks[0] == "forge" || toks[0] == "inject" || toks[0] == "dropblock" || ((toks[0] == "hold" || toks[0] == "waitget" || toks[0] == "syncasync" || toks[0] == "release") && strings.Contains(line, "@")) {
 			for i, t := range toks {
 				if strings.Contains(t, "@") {
 					toks[i] = w.resolveSymbols(t)
